@@ -674,9 +674,10 @@ func (g *G) fieldsValue(depth int, stack bool) (val interface{}, in *Intent, tag
 			case 3:
 				x = &sampleStruct{B: "p"}
 			default:
-				if g.P.Modelled {
+				if r.Bool() {
 					x = Strn{g.V.String()}
 				} else {
+					// a MarshalJSON that fails: encoding/json wraps the error (the wrapped text is what both builds show)
 					x = FailJSON{g.V.String()}
 				}
 			}
